@@ -236,3 +236,38 @@ func CompactText(text string) (string, bool) {
 	}
 	return Join(ptoks, seps), true
 }
+
+// BrokenText is the counterpart of CompactText: the same tokens, with a line break
+// in front of every operator and closing token (binary and prefix operators, `?`,
+// `:`, `,`, `)`, `]`) - the places where the grammar allows one. Tokens that must
+// stay on the line of their left neighbour (`.`, `!.`, `(`) and `[`, `...` keep
+// the trivia they had. ok is false when the text does not tokenise cleanly.
+func BrokenText(text string) (string, bool) {
+	lr := Lex([]byte(text))
+	if lr.Err || len(lr.Tokens) == 0 {
+		return "", false
+	}
+	toks := lr.Tokens[:len(lr.Tokens)-1]
+	ptoks := make([]PTok, 0, len(toks))
+	seps := make([]string, len(toks)+1)
+	prevEnd := 0
+	for i, t := range toks {
+		if t.Unspec {
+			return "", false
+		}
+		lex := text[t.Pos:t.End]
+		seps[i] = text[prevEnd:t.Pos]
+		punct := lex != ""
+		for _, r := range lex {
+			if r == '_' || r == '$' || r == '\'' || r == '"' || r > 127 || (r >= '0' && r <= '9') || (r >= 'a' && r <= 'z') || (r >= 'A' && r <= 'Z') {
+				punct = false
+			}
+		}
+		if i > 0 && punct && lex != "(" && lex != "." && lex != "!." && lex != "[" && lex != "..." {
+			seps[i] = "\n"
+		}
+		ptoks = append(ptoks, PTok{Text: lex})
+		prevEnd = t.End
+	}
+	return Join(ptoks, seps), true
+}
